@@ -154,9 +154,12 @@ def run_sequences(seed=0, n=25):
             cmp_ += 1
             try:
                 res, st = engine_seq([(M + ".__init__", lambda r: (None, [p, 1], {})), (H + helper, lambda r: (None, [r[0]], {}))])
-                a = ("ok", to_py(st, res[1])) if isinstance(res, list) and len(res) == 2 and not isinstance(res[1], tuple) or (isinstance(res, list) and len(res) == 2) else ("other", str(res)[:100])
-                if isinstance(res, list) and len(res) == 2:
+                if isinstance(res, list) and res and isinstance(res[-1], tuple) and len(res[-1]) == 2 and res[-1][0] == "raise":
+                    a = res[-1]  # the constructor (or the helper) raised: compare the exception class
+                elif isinstance(res, list) and len(res) == 2:
                     a = ("ok", to_py(st, res[1]))
+                else:
+                    a = ("other", str(res)[:100])
             except Exception as e:  # noqa
                 a = ("engine-error", repr(e)[:200])
             b = real_call(lambda: fn(pyrtcm.RTCMMessage(payload=p)), [])
